@@ -828,7 +828,8 @@ class Client(BaseClient):
                     name, info = cls.parse_line(line)
                     # skipping . and .. as these are symlinks in Unix
                     if str(name) in (".", ".."):
-                        if not line.rstrip().endswith(b"."):
+                        tail = line.rstrip().rpartition(b" ")[2]
+                        if tail not in (b".", b".."):
                             # line without a name reads as "." too
                             raise ValueError("no name", line)
                         continue
